@@ -215,6 +215,10 @@ type runCase struct {
 	Changed bool
 	Struct  string // structural oracle verdict ("" = holds)
 	Compile string
+	CtxT    []*Ty   // context parameter types and the values passed
+	CtxV    []int64
+	Err     string  // the call returned an error: Coq term (fn, wraps)
+	Custom  bool
 }
 
 const driverPrelude = `
